@@ -90,6 +90,7 @@ u32 vf_aio_eof[VF_AIO_NPIPE];
 u32 vf_aio_read_frag, vf_aio_write_frag, vf_aio_eagain, vf_aio_delay;     /* budgets, set by the harness */
 u32 vf_aio_nread, vf_aio_nwrite, vf_aio_nselect;                          /* call counters */
 u32 vf_aio_lastread;                                                      /* byte count of the last successful read() */
+u32 vf_aio_plan[4], vf_aio_plan_n, vf_aio_plan_i;   /* scripted fragmentation: the k-th successful read() delivers at most vf_aio_plan[k] bytes (0 = everything pending) */
 
 long read(int fd, void *buf, size_t len) {
   u8 *d = buf; u32 avail, max, cnt, i, base;
@@ -100,7 +101,8 @@ long read(int fd, void *buf, size_t len) {
   if (len == 0) return 0;
   max = len < avail ? (u32)len : avail;
   cnt = max;
-  if (vf_aio_read_frag > 0 && max > 1) { cnt = 1 + (u32)vf_nondet_below(max); if (cnt < max) --vf_aio_read_frag; }
+  if (vf_aio_plan_i < vf_aio_plan_n && vf_aio_plan_i < 4) { u32 p = vf_aio_plan[vf_aio_plan_i]; ++vf_aio_plan_i; if (p != 0 && p < cnt) cnt = p; }
+  else if (vf_aio_read_frag > 0 && max > 1) { cnt = 1 + (u32)vf_nondet_below(max); if (cnt < max) --vf_aio_read_frag; }
   base = (u32)fd * VF_AIO_CAP + vf_aio_r[fd];
   for (i = 0; i < cnt; ++i) d[i] = vf_aio_data[base + i];
   vf_aio_r[fd] += cnt; vf_aio_lastread = cnt;
@@ -144,7 +146,12 @@ int fcntl(int fd, int cmd, ...) { (void)cmd; if (fd < 0 || fd >= VF_AIO_NPIPE) {
 #define A_GPG_ERR_INV_LENGTH 139
 #define A_GPG_ERR_TOO_SHORT 66
 const char *gcry_strerror(u32 e) { (void)e; return "gcry error"; }
+#ifdef VF_AIO_NONCE_CONCRETE
+static u32 aio_nonce_ctr;   /* fixed, pairwise different nonces (an instance of "unpredictable IV"): keeps the wire bytes concrete */
+void gcry_create_nonce(void *buffer, size_t length) { u8 *p = buffer; size_t i; ++aio_nonce_ctr; for (i = 0; i < length; ++i) p[i] = (u8)(0xa1 + 0x11 * i + 0x23 * aio_nonce_ctr); }
+#else
 void gcry_create_nonce(void *buffer, size_t length) { u8 *p = buffer; size_t i; for (i = 0; i < length; ++i) p[i] = vf_nondet_u8(); }
+#endif
 
 /* ------------------------------------------------------------------ KDF: injective memoised function of (passphrase, salt[0], saltlen) */
 #define A_KDFTAB 8
@@ -211,7 +218,11 @@ u32 gcry_mac_read(gcry_mac_hd_t h, void *buffer, size_t *buflen) {
     u8 t[VF_AIO_MACLEN];
     if (vf_aio_mac_n >= VF_AIO_MACTAB) ABOUND("more than VF_AIO_MACTAB tagged messages");
     e = vf_aio_mac_n;
+#ifdef VF_AIO_TAG_CONCRETE
+    for (i = 0; i < VF_AIO_MACLEN; ++i) t[i] = (u8)(0xc0 + 0x10 * i + e);   /* one fixed injective tag assignment (an instance of the ideal MAC; no tag byte equals a newline) */
+#else
     for (i = 0; i < VF_AIO_MACLEN; ++i) t[i] = vf_nondet_u8();
+#endif
     for (o = 0; o < VF_AIO_MACTAB; ++o) {        /* collision-free: the new tag differs from every tag handed out before */
       int eq = 1;
       if (o >= e) break;
